@@ -20,7 +20,9 @@ from harness import core
 from harness import pandora_util as pu
 from harness.props.c01 import expected_trace_py
 
-GEN = ["gen_tables", "gen_msconst"]
+# gen_scale_arith: Gen/ScaleArith.v = the arithmetic of run_prepare / matching_cost_prepare / run_multiscale and the
+# interval expressions of disparity_range, translated from the ast (obligations: Proofs/ScaleArithGenP.v)
+GEN = ["gen_tables", "gen_msconst", "gen_scale_arith"]
 EXTRACT_FILES = ["X15"]
 DRIVERS = ["x15"]
 RULE = ("random pandora.run executions: sad, window 3/5, images 12..30 x 14..36 (mono, 2-band, with/without masks with "
@@ -45,6 +47,28 @@ ASSUMES = [
     "map; a valid-flagged pixel whose disparity is NaN counts as invalid (invalid_ind of the code)",
 ]
 TRUSTED = ["cst.PANDORA_MSK_PIXEL_INVALID is read from the imported package and given to the model as data"]
+
+
+# per-run obligations on Gen/ScaleArith.v (translator/gen_scale_arith.py), proved for ALL inputs in
+# Proofs/ScaleArithGenP.v and restated in Props/C15.v (C15_gen_*_is_model)
+SCALE_ARITH_OBLIGATIONS = [
+    "Gen.ScaleArith.run_prepare_params = (num_scales, scale_factor) when both are given, (1, 1) otherwise; "
+    "run_prepare_is_multi = (1 <? self.num_scales) (C15_gen_params_is_model)",
+    "Gen.ScaleArith.run_prepare_multi n sf n sf dmin dmax = model_prepare_multi n sf dmin dmax, i.e. "
+    "Model.Multiscale.run_prepare_interval (/ sf^n), right_interval (negated, swapped), user copies, pyramid of n levels "
+    "of factor sf, current_scale = n - 1 (C15_gen_prepare_multi_is_model, C15_gen_prepare_multi_fields: reflexivity on "
+    "the regenerated text)",
+    "Gen.ScaleArith.matching_cost_prepare = model_mcp (Model.Multiscale.scale_interval x sf, right interval under the "
+    "guard only, cost volumes allocated on the scaled intervals) (C15_gen_matching_cost_prepare_is_model)",
+    "Gen.ScaleArith.run_multiscale = model_msc (user interval x sf handed to disparity_range, current_scale - 1) "
+    "(C15_gen_run_multiscale_is_model)",
+    "Gen.ScaleArith.range_{min,max}_{init,invalid} = Model.Multiscale.fallback = int(np.nanmin(disp_min)), "
+    "int(np.nanmax(disp_max)) whatever the two other reductions; range_{min,max}_window = nanmin - marge, nanmax + marge "
+    "= win_range; range_offset = offset; zoom by scale_factor, order 0, mode nearest, skipped for factor 1 "
+    "(C15_gen_disparity_range_is_model)",
+    "the first grids of Model.Multiscale.run_grids = the intervals the generated run_prepare + matching_cost_prepare hand "
+    "to allocate_cost_volume (C15_gen_first_grids)",
+]
 
 
 # ---------------------------------------------------------------- case generation
@@ -639,4 +663,4 @@ def run(ctx):
                 ctx.mismatch("zoom_index_map", {"n": n_, "sf": sf_}, got, want)
     ctx.gen_obligations = ["run_tbl_wf Gen.Tables.run_table = true (vm_compute), shared with C01",
                            "Gen.MsConst: PANDORA_MSK_PIXEL_INVALID = 963 (bits 0,1,6,7,8,9) and 1 <= chunk size of "
-                           "disparity_range (C15_constants_match); class defaults used as regenerated"]
+                           "disparity_range (C15_constants_match); class defaults used as regenerated"] + SCALE_ARITH_OBLIGATIONS
